@@ -4,7 +4,9 @@
    State = the dict `module_results` of one record (module name -> entry), in insertion order.
    An entry is the raw JSON dict of a previous run (MRaw), a ModuleResults instance (MRes), any other
    object (MJunk) or None.  Objects are named by integer identities; `t` is the truth value of the
-   object (`if results:` is a truth test: an empty dict is falsy, TTAResults defines __len__).
+   object (an empty dict is falsy, TTAResults defines __len__): run_module stores regenerated results
+   with `if results is not None:` (repaired FC11a, formerly the truth test `if results:`), the truth
+   value is still read by run_detection's `if results:` before the results are handed to the record.
    A module is described by what its functions do when they are called (mbeh): the outcome of
    regenerate_previous_results on the saved results, membership of options.all_enabled_modules,
    is_enabled(options), and the outcome of run_on_record.
@@ -59,7 +61,7 @@ Inductive regd : Type := GNone | GRes (id : Z) (t : bool) | GJunk (id : Z) (t : 
     if previous_results is not None:
         assert isinstance(previous_results, dict)
         results = module.regenerate_previous_results(previous_results, record, options)
-        if results:
+        if results is not None:
             module_results[module.__name__] = results                                   *)
 Definition regen_phase (b : mbeh) (m : mmap) : res (mmap * regd * list Z) :=
   let n := mb_name b in
@@ -71,8 +73,8 @@ Definition regen_phase (b : mbeh) (m : mmap) : res (mmap * regd * list Z) :=
     match mb_regen b with
     | RRaise k => Err k
     | RNone => Ok (m1, GNone, [1; n; id])
-    | RRes i t => Ok (if t then mset n (MRes i t) m1 else m1, GRes i t, [1; n; id])
-    | RJunk i t => Ok (if t then mset n (MJunk i t) m1 else m1, GJunk i t, [1; n; id])
+    | RRes i t => Ok (mset n (MRes i t) m1, GRes i t, [1; n; id])
+    | RJunk i t => Ok (mset n (MJunk i t) m1, GJunk i t, [1; n; id])
     end
   | Some (MRes _ _) => Err E_Assert
   | Some (MJunk _ _) => Err E_Assert
@@ -216,12 +218,13 @@ Definition spec_final (bs : list mbeh) (m : mmap) (m' : mmap) (dumped : bool) : 
   nodupb (keys_of m') &&
   (negb (forallb (fun k => zmem k (names_of bs)) (keys_of m)) || dumped).
 
-(* recorded finding FC11a (class 1): accepted results that are falsy are not kept when the module does not run *)
-Definition falsy_dropped (m : mmap) (b : mbeh) : bool :=
+(* the class of the repaired finding FC11a (accepted results that are falsy, module not run): no longer excluded
+   from anything - the specification covers it; kept as a predicate so that the harness can count how often
+   the class is met and the theorems can name it *)
+Definition accepted_falsy_unrun (m : mmap) (b : mbeh) : bool :=
   negb (ran b) && had_raw b m && match mb_regen b with RRes _ false => true | _ => false end.
-Definition finding_class (bs : list mbeh) (m : mmap) : Z :=
-  if existsb (falsy_dropped m) bs then 1 else 0.
-Definition guard (bs : list mbeh) (m : mmap) : bool := applicable bs m && (finding_class bs m =? 0).
+(* no recorded finding class is left at this level: the run-time guard is applicability alone *)
+Definition guard (bs : list mbeh) (m : mmap) : bool := applicable bs m.
 
 (* ---------- flat encoding ---------- *)
 Definition d_entry : dec (Z * mentry) := fun l =>
@@ -260,7 +263,8 @@ Definition pipeline (mode : Z) (bs : list mbeh) (m : mmap) : res (mmap * list Z)
   if mode =? 0 then analyse_record bs m else run_detection bs m.
 
 (* fn 9: [mode; map; modules] -> outcome.   fn 19: the same followed by the implementation's outcome ->
-   [verdict; applicable; finding class]  (verdict 1 = satisfied or not applicable) *)
+   [verdict; applicable; regression class]  (verdict 1 = satisfied or not applicable; regression class 1 = the
+   case lies in the class of the repaired finding FC11a - informative only, nothing is suppressed for it) *)
 Definition run_main_level (spec : bool) (l : list Z) : list Z :=
   match l with
   | mode :: r0 =>
@@ -272,7 +276,7 @@ Definition run_main_level (spec : bool) (l : list Z) : list Z :=
           match rest with [] => e_outcome (pipeline mode bs m) | _ => bad_input end
         else
           let app := applicable bs m in
-          let cls := finding_class bs m in
+          let cls := if existsb (accepted_falsy_unrun m) bs then 1 else 0 in
           let verdict :=
             if negb app then true else
             match rest with
